@@ -450,6 +450,30 @@ func (t *textGen) boundedReader(n int) {
 	}
 }
 
+// overlongLaw: k well-formed lines, then a line too long for the reader's scanner (a 70 000 byte text literal), then one
+// more well-formed line: the reader fails, reports k, and the graph holds k triples.
+func overlongLaw(k int) string {
+	ctx := context.Background()
+	var b strings.Builder
+	for i := 0; i < k; i++ {
+		fmt.Fprintf(&b, "/u<s%d>\t\"p\"@[]\t/u<o>\n", i)
+	}
+	fmt.Fprintf(&b, "/u<long>\t\"p\"@[]\t\"%s\"^^type:text\n", strings.Repeat("x", 70000))
+	b.WriteString("/u<after>\t\"p\"@[]\t/u<o>\n")
+	g, _ := memory.NewStore().NewGraph(ctx, "?l")
+	rn, rerr := bwio.ReadIntoGraph(ctx, g, strings.NewReader(b.String()), literal.DefaultBuilder())
+	ch := make(chan *triple.Triple, 16)
+	go g.Triples(ctx, storage.DefaultLookup, ch)
+	held := 0
+	for range ch {
+		held++
+	}
+	if rerr == nil || rn != held || held != k {
+		return fmt.Sprintf("differs: %d well-formed lines before a line too long for the scanner: the reader reports %d (error: %v), the graph holds %d", k, rn, rerr != nil, held)
+	}
+	return "same"
+}
+
 func (t *textGen) newlineWitness() {
 	ctx := context.Background()
 	st := memory.NewStore()
@@ -707,6 +731,10 @@ func cmdText(args []string) error {
 	t.values(*n)
 	t.graphs(*n / 3)
 	t.boundedReader(*n / 6)
+	for _, k := range []int{0, 1, 3} {
+		t.hist["overlong-line"]++
+		t.g.emit(fmt.Sprintf("B2 lines=%d", k), overlongLaw(k))
+	}
 	t.arbitrary(*maxLen, *n)
 	wo.Flush()
 	wi.Flush()
@@ -726,6 +754,11 @@ func cmdTextOne(args []string) error {
 		return fmt.Errorf("usage: textone <kind> <hextext>")
 	}
 	t, _ := unhx(args[1])
+	if strings.HasPrefix(args[0], "overlong:") {
+		k, _ := strconv.Atoi(strings.TrimPrefix(args[0], "overlong:"))
+		fmt.Println(overlongLaw(k))
+		return nil
+	}
 	if strings.HasPrefix(args[0], "bounded:") {
 		// the law of the B lines on one text
 		bound, _ := strconv.Atoi(strings.TrimPrefix(args[0], "bounded:"))
